@@ -129,25 +129,102 @@ theorem ta_revoke_effective (o : TaObjects) (now key : Nat) (prev : PubObj)
 
 /-! ### Revocation requests -/
 
-/-- A revocation request that is answered positively (`rfc6492_revoke` replies unless the command
-fails) for a key the child holds a certificate for, in a class the parent has – under whichever
-name the child was told – removes that certificate, in exactly that class. -/
+/-- `update_certs` with `removed = [name]` (what `ChildCertificatesUpdated { removed }` does to the
+current key set of the class): the certificate is not published any more and its serial is on the
+set's revocation list (it stays there until it has expired: `revocation_stays_until_expiry`, and
+the CRL lists it: `crl_lists_revocations_always`). -/
+theorem removed_certificate_withdrawn_and_revoked (s : KeyObjectSet) (name : Nat) (old : PubObj)
+    (hnd : (keys s.published).Nodup) (h : get? s.published name = some old) :
+    name ∉ keys (s.updateCerts { removed := [name] }).published ∧
+    old.revoke ∈ (s.updateCerts { removed := [name] }).revocations := by
+  have hu : s.updateCerts { removed := [name] } = s.remove name := rfl
+  rw [hu]
+  refine ⟨removed_not_published s name hnd, ?_⟩
+  simp [KeyObjectSet.remove, h]
+
+/-- FULL STATEMENT (since fix 239f0a59, F-C03-3): a revocation request that is answered
+positively (`rfc6492_revoke` replies unless the command fails) is, whatever class name the child
+was told and whatever it names,
+* executed in the class the key's certificate was issued in (`used_keys` records it; the events
+  `ChildKeyRevoked` + `ChildCertificatesUpdated { removed: [key] }` are emitted for exactly that
+  class; by `removed_certificate_withdrawn_and_revoked` the certificate leaves the published set
+  and its serial is on the CRL), or
+* for a class the parent does not have: nothing to remove (`ignored`), or
+* for a key this CA marked `Revoked` itself (`alreadyRevoked`): the certificate was removed by the
+  command that set the mark (see `revoke_request_for_revoked_key_confirmed` for what is proved
+  and what is missing for the state-level statement). -/
 theorem revoke_request_effective (res : List Nat) (c : ChildM) (rcn key : Nat)
-    (hiss : c.isIssued key = true) (hclass : c.parentNameForRcn rcn ∈ res) :
+    (hpos : (processChildRevokeKey res c rcn key).positive = true) :
+    (∃ r, get? c.usedKeys key = some (some r) ∧ r = c.parentNameForRcn rcn ∧ r ∈ res ∧
+      processChildRevokeKey res c rcn key = .revoked r key) ∨
+    (c.parentNameForRcn rcn ∉ res ∧ processChildRevokeKey res c rcn key = .ignored) ∨
+    (c.isRevoked key = true ∧ processChildRevokeKey res c rcn key = .alreadyRevoked) := by
+  unfold processChildRevokeKey at hpos ⊢
+  by_cases hcl : c.parentNameForRcn rcn ∈ res
+  · simp only [hcl, not_true_eq_false, if_false] at hpos ⊢
+    cases hu : get? c.usedKeys key with
+    | none => rw [hu] at hpos; simp [RevokeOut.positive] at hpos
+    | some v =>
+      cases v with
+      | none =>
+        right; right
+        exact ⟨by simp [ChildM.isRevoked, hu], rfl⟩
+      | some r =>
+        rw [hu] at hpos
+        simp only at hpos ⊢
+        by_cases hr : r = c.parentNameForRcn rcn
+        · left
+          exact ⟨r, rfl, hr, hr ▸ hcl, by simp [hr]⟩
+        · simp [hr, RevokeOut.positive] at hpos
+  · right; left
+    exact ⟨hcl, by simp [hcl]⟩
+
+/-- The converse for the executing arm: a key in use in the class the request names (under
+whichever name the child was told), in a class the parent has, is revoked there and the answer
+is positive. -/
+theorem revoke_request_executed (res : List Nat) (c : ChildM) (rcn key : Nat)
+    (hiss : get? c.usedKeys key = some (some (c.parentNameForRcn rcn))) (hclass : c.parentNameForRcn rcn ∈ res) :
     (processChildRevokeKey res c rcn key).positive = true ∧
     processChildRevokeKey res c rcn key = .revoked (c.parentNameForRcn rcn) key := by
   simp [processChildRevokeKey, hclass, hiss, RevokeOut.positive]
 
+/-- Counter-model of the PINNED tree (before 239f0a59; F-C03-3, replayed:
+corpus/proto-cms/revoke-names-another-class.ops shows the fixed behaviour): the key is in use in
+class 0, the request names class 1 (which the parent has): answered positively, "revoked" in
+class 1 – where the certificate is not.  On the current tree the request is refused. -/
+theorem pinned_revoke_in_wrong_class :
+    ∃ (res : List Nat) (c : ChildM) (rcn key : Nat),
+      get? c.usedKeys key = some (some 0) ∧
+      (pinnedRevokeAnyClass res c rcn key).positive = true ∧
+      pinnedRevokeAnyClass res c rcn key = .revoked 1 key ∧
+      (processChildRevokeKey res c rcn key).positive = false :=
+  ⟨[0, 1], { usedKeys := [(5, some 0)], rcnMap := [] }, 1, 5, by decide, by decide, by decide, by decide⟩
+
 /-- Non-vacuity, with a mapped class name. -/
 example : ∃ (res : List Nat) (c : ChildM) (rcn key : Nat),
-    c.isIssued key = true ∧ c.parentNameForRcn rcn ∈ res ∧ c.parentNameForRcn rcn ≠ rcn :=
-  ⟨[0], { usedKeys := [(5, some 0)], rcnMap := [(0, 7)] }, 7, 5, by decide, by decide, by decide⟩
+    get? c.usedKeys key = some (some (c.parentNameForRcn rcn)) ∧ c.parentNameForRcn rcn ∈ res ∧
+    c.parentNameForRcn rcn ≠ rcn ∧ (processChildRevokeKey res c rcn key).positive = true :=
+  ⟨[0], { usedKeys := [(5, some 0)], rcnMap := [(0, 7)] }, 7, 5, by decide, by decide, by decide, by decide⟩
 
 /-- A request for a key the child never presented is refused (not answered positively). -/
 theorem revoke_request_unknown_key_refused (res : List Nat) (c : ChildM) (rcn key : Nat)
     (hiss : c.isIssued key = false) (hrev : c.isRevoked key = false) (hclass : c.parentNameForRcn rcn ∈ res) :
     (processChildRevokeKey res c rcn key).positive = false := by
-  simp [processChildRevokeKey, hclass, hiss, hrev, RevokeOut.positive]
+  unfold ChildM.isIssued at hiss; unfold ChildM.isRevoked at hrev
+  cases hu : get? c.usedKeys key with
+  | none => simp [processChildRevokeKey, hclass, hu, RevokeOut.positive]
+  | some v =>
+    cases v with
+    | none => rw [hu] at hrev; cases hrev
+    | some r => rw [hu] at hiss; cases hiss
+
+/-- A request for a key that is in use in ANOTHER class than the one it names is refused (fix
+239f0a59): never answered positively without effect. -/
+theorem revoke_request_other_class_refused (res : List Nat) (c : ChildM) (rcn key r : Nat)
+    (hu : get? c.usedKeys key = some (some r)) (hne : r ≠ c.parentNameForRcn rcn)
+    (hclass : c.parentNameForRcn rcn ∈ res) :
+    (processChildRevokeKey res c rcn key).positive = false := by
+  simp [processChildRevokeKey, hclass, hu, hne, RevokeOut.positive]
 
 /-- Since fix 7be8c4c6 (F-C02-2): a request for a key that this CA marked `Revoked` itself is
 answered positively and changes nothing.  The decision table is complete: every request is
@@ -167,7 +244,11 @@ the key in any class": it is not part of `Inv` (`UsedInv` speaks about `InUse` o
 false when two children present the same key - the second child can have the key certified again
 while the first child's entry stays `Revoked` (`revoked_entry_beside_live_certificate` below); it
 needs the input assumption "no two children present the same key" that C02's
-`ActiveChildHasCert` needs as well. -/
+`ActiveChildHasCert` needs as well; and it is false when ONE child has the same key certified in
+two classes (`revoked_entry_beside_certificate_in_other_class`): `used_keys` has one entry per
+key, and nothing refuses the second certificate – `ChildDetails::verify_key_allowed`
+(child.rs:152-167, `KeyUseAttemptReuse`) is never called.  Both need a non-krill child (krill
+creates a new key per class and per roll). -/
 theorem revoke_request_for_revoked_key_confirmed (res : List Nat) (c : ChildM) (rcn key : Nat)
     (hrev : c.isRevoked key = true) (hclass : c.parentNameForRcn rcn ∈ res) :
     processChildRevokeKey res c rcn key = .alreadyRevoked ∧
@@ -180,7 +261,14 @@ theorem revoke_request_for_revoked_key_confirmed (res : List Nat) (c : ChildM) (
     | some v => cases v with
       | none => rfl
       | some _ => rw [h] at hrev; cases hrev
-  simp [processChildRevokeKey, pinnedRevokedKeyRefused, hclass, hiss, hrev, RevokeOut.positive]
+  have hu : get? c.usedKeys key = some none := by
+    unfold ChildM.isRevoked at hrev
+    cases h : get? c.usedKeys key with
+    | none => rw [h] at hrev; cases hrev
+    | some v => cases v with
+      | none => rfl
+      | some _ => rw [h] at hrev; cases hrev
+  simp [processChildRevokeKey, pinnedRevokedKeyRefused, hclass, hiss, hu, RevokeOut.positive]
 
 /-- Non-vacuity. -/
 example : ∃ (res : List Nat) (c : ChildM) (rcn key : Nat), c.isRevoked key = true ∧ c.parentNameForRcn rcn ∈ res :=
@@ -199,6 +287,23 @@ theorem revoked_entry_beside_live_certificate :
     ((KM.AMap.get s.ca.children 7).bind fun c => KM.AMap.get c.usedKeys 6) = some .revoked ∧
     ((KM.AMap.get s.ca.classes 0).map fun rc => (KM.AMap.get rc.certs.issued 6).isSome) = some true ∧
     s.exec (.childRevokeKey 7 0 6) = .stored [] s :=
+  ⟨KM.CaK.reachable_run .init _, by decide, by decide, by decide⟩
+
+/-- The second corner: one child has key 6 certified in class 0 and then in class 1 (nothing
+refuses the re-use); its revocation request for class 1 is executed there – the certificate in
+class 0 stays issued while the child's only entry for the key says `Revoked`. -/
+theorem revoked_entry_beside_certificate_in_other_class :
+    let s := KM.CaK.Sys.run {} [ .repoUpdate [], .addParent 98, .addParent 99,
+      .updateEntitlements 98 [⟨0, [1, 2], 1000, []⟩] 0 [4],
+      .updateEntitlements 99 [⟨0, [5, 6], 1000, []⟩] 0 [5],
+      .updateRcvdCert 0 4 { res := [1, 2], na := 1000 } 500 [],
+      .updateRcvdCert 1 5 { res := [5, 6], na := 1000 } 500 [],
+      .childAdd 7 [1, 5], .childCertify 7 0 6 none 60, .childCertify 7 1 6 none 60,
+      .childRevokeKey 7 1 6 ]
+    KM.CaK.Reachable s ∧
+    ((KM.AMap.get s.ca.children 7).bind fun c => KM.AMap.get c.usedKeys 6) = some .revoked ∧
+    ((KM.AMap.get s.ca.classes 1).map fun rc => (KM.AMap.get rc.certs.issued 6).isSome) = some false ∧
+    ((KM.AMap.get s.ca.classes 0).map fun rc => (KM.AMap.get rc.certs.issued 6).isSome) = some true :=
   ⟨KM.CaK.reachable_run .init _, by decide, by decide, by decide⟩
 
 /-- What remains open (finding F-C03-2): the hypothesis "the class exists" cannot be dropped.  A
